@@ -241,8 +241,7 @@ let () =
         let t = m1 in
         Printf.printf "%d TT %s %s\n" k (desc t) (hex_of (flatten t));
         Printf.printf "%d TH %Lu %Lu\n" k (int64_of_n (tmpl_hash hash64 t)) (int64_of_n (tmpl_hash hash64 m0));
-        if not (same_shape t m0) then Printf.printf "%d TF skip\n" k
-        else match tmpl_flatten t m0 with
+        match tmpl_flatten t m0 with
           | None -> Printf.printf "%d TF unmodelled\n" k
           | Some tb ->
               Printf.printf "%d TF %d %s\n" k (int_of_n (tmpl_flattened_size t m0)) (hex_of tb);
@@ -251,7 +250,8 @@ let () =
               (match tmpl_unflatten t tb with
                | Ok u ->
                    Printf.printf "%d TU ok %s %s\n" k (desc u) (hex_of (flatten u));
-                   if u <> rt m0 then Printf.printf "%d ORACLE FAIL model: tmpl_unflatten t (tmpl_flatten t p) <> rt p\n" k
+                   if same_shape t m0 && u <> rt m0 then Printf.printf "%d ORACLE FAIL model: tmpl_unflatten t (tmpl_flatten t p) <> rt p\n" k;
+                   if in_domain && u <> rt (tmpl_merge t m0) then Printf.printf "%d ORACLE FAIL model: tmpl_unflatten t (tmpl_flatten t p) <> rt (tmpl_merge t p)\n" k
                | _ -> Printf.printf "%d TU err\n" k);
               (match !tm_seed with
                | None -> ()
